@@ -195,6 +195,14 @@ class CollectedErrors:
         self._error_positions.add(path)
         self._errors.append(error)
 
+    def null_position(self, path: Path | None) -> None:
+        """Mark the given execution position as nulled without adding an error.
+
+        This is used when the execution at this position has failed as a whole,
+        so that nothing below this position will be delivered any more.
+        """
+        self._error_positions.add(path)
+
     def has_nulled_position(self, start_path: Path | None) -> bool:
         """Check whether the given position or one of its ancestors is nulled."""
         error_positions = self._error_positions
